@@ -733,12 +733,21 @@ def _build(spec, variant=None):
     fset = m.ambiguity()
     B.fset = fset
     # supports
+    def shared_base(cons):
+        # variant 'dup_set': collections that share a base set, so that the same constraint OBJECT
+        # reaches suppset()/exptset() more than once (redundant, the set is unchanged)
+        cons = list(cons)
+        if variant.get('dup_set') and len(cons) >= 2:
+            base_ = tuple(cons[:2])
+            return [(base_, cons[2:]), (base_, cons[-1])]
+        return cons
+
     if spec['shared'] and rng.random() < 0.6:
-        fset.suppset(S.build_rsome(spec['supports'][0], z, rng))
+        fset.suppset(shared_base(S.build_rsome(spec['supports'][0], z, rng)))
     else:
         for s in range(Sn):
             sel = scen_selector(fset, spec, [s], rng)
-            sel.suppset(*S.build_rsome(spec['supports'][s], z, rng))
+            sel.suppset(*shared_base(S.build_rsome(spec['supports'][s], z, rng)))
     # expectation sets
     for mo in spec['moments']:
         sel = scen_selector(fset, spec, mo['event'], rng)
@@ -752,7 +761,7 @@ def _build(spec, variant=None):
             sel2 = sel if rng.random() < 0.5 else scen_selector(fset, spec, mo['event'], rng)
             sel2.exptset(*cons[k_:])
         else:
-            sel.exptset(cons)
+            sel.exptset(shared_base(cons))
     fset2 = None
     if spec.get('amb2'):
         a2 = spec['amb2']
